@@ -60,13 +60,15 @@ def sample(w, conv, arns):
         rec = dict(rec) if rec is not None else None
         hist = eng.execution_history.get(arn) if arn in eng.execution_history else None
         digests = [hashlib.md5(json.dumps(h, sort_keys=True, default=str).encode()).hexdigest() for h in (hist or [])]
-        out[arn] = {"record": rec, "queued": queued.get(arn, 0), "held": held.get(arn, 0), "hist": digests}
+        out[arn] = {"record": rec, "queued": queued.get(arn, 0), "held": held.get(arn, 0), "hist": digests,
+                    "hist_first": copy.deepcopy(hist[0]) if hist else None, "hist_last": copy.deepcopy(hist[-1]) if hist else None}
     return out
 
 
 def run_many(definition, inputs, worker, tmpdir, chooser=None, mtype="STANDARD", max_steps=4000):
     """Start len(inputs) executions of one machine in a fresh world and run to quiescence."""
     w = sim.World(tmpdir)
+    w.clock.t += 33 / 64.0        # a start time with a sub-millisecond fraction (exact in binary)
     w.register(cp.ARN, definition, mtype=mtype)
     names = ["x%d" % i for i in range(len(inputs))]
     arns = [cp.ARN.replace("stateMachine", "execution") + ":" + n for n in names]
@@ -76,8 +78,17 @@ def run_many(definition, inputs, worker, tmpdir, chooser=None, mtype="STANDARD",
         starts.append(m)
     samples = []
 
+    broadcasts = []
+    seen = [0]
+
     def on_step(world, what):
-        samples.append(sample(world, None, arns))
+        smp = sample(world, None, arns)
+        for t in world.trace[seen[0]:]:
+            if t[0] == "broadcast":
+                xa = t[3].get("detail", {}).get("executionArn")
+                broadcasts.append({"step": len(samples), "subject": t[2], "body": t[3], "record_after": (smp.get(xa) or {}).get("record")})
+        seen[0] = len(world.trace)
+        samples.append(smp)
     info = Info()
     info.exception = None
     steps = 0
@@ -116,6 +127,7 @@ def run_many(definition, inputs, worker, tmpdir, chooser=None, mtype="STANDARD",
     info.trace = list(w.trace)
     info.times = list(w.trace.times)
     info.samples = samples
+    info.broadcasts = broadcasts
     info.arns = arns
     info.start_ids = [mid(m.message_id) for m in starts]
     info.leftovers = w.leftovers()
